@@ -222,6 +222,9 @@ class Sim:
             task.vc.update(parent.vc)
             task.vc[task.tid] = 0
         self.tasks.append(task)
+        ps = sys.modules.get("sim.procstate")
+        if ps is not None:
+            ps.on_spawn(parent, task)  # fork: the child inherits the parent's process-local memos
         task.state = "blocked"
         task.thread.start()
         return task
